@@ -154,6 +154,7 @@ func BuildLocks(c *Ctx) *LockInfo {
 		EntryMay: map[*ssa.Function]lset{}, EntryMust: map[*ssa.Function]lset{}, Acq: map[*ssa.Function]map[LockClass]int{},
 		Callees: map[ssa.Instruction][]*ssa.Function{}, Callers: map[*ssa.Function][]callSite{}, GoRoots: map[*ssa.Function]bool{}}
 	li.Fns = c.Concrete()
+	curConcrete = li.Fns
 	inSet := map[*ssa.Function]bool{}
 	for _, f := range li.Fns {
 		inSet[f] = true
